@@ -79,7 +79,7 @@ class MACD(Indicator):
             self.candles[index].indicators[self.name] = {"MACD": macd}
             self.managed_indicators["signal"].calculate_index(index)
 
-            signal = self.managed_indicators["signal"].reading()
+            signal = self.managed_indicators["signal"].reading(index=index)
 
             if macd is not None and signal is not None:
                 histogram = macd - signal
